@@ -95,6 +95,9 @@ def make_command(transport, protocol, spec=None):
         spec = ("aa55", "010600", "0186") if transport in ("aa55", "aa55tcp") else ("read", 35100, 3)
     if spec[0] == "aa55":
         return Aa55ProtocolCommand(spec[1], spec[2])
+    if spec[0] == "aa55read":       # the library's own AA55 register read command class (ES family settings registers)
+        from goodwe.protocol import Aa55ReadCommand
+        return Aa55ReadCommand(spec[1], spec[2])
     if spec[0] == "read":
         return protocol.read_command(spec[1], spec[2])
     if spec[0] == "write":
